@@ -214,7 +214,23 @@ Fixpoint clean_ov (cid : N) (items : list mitem) (s : mstate) : mstate :=
 
 Definition items_of (p : prep) : list mitem := p_roots p ++ p_kv p ++ p_nodes p.
 
+(* DbInner::validate_changes (repair F7): an operation that is invalid for its column rejects the transaction
+   before anything is claimed or registered; first the checks of commit_changes in the order of the operations,
+   then the check of commit_raw (a reference on a column without counting) *)
+Fixpoint static_code (cf : mcfg) (ops : list uop) : N :=
+  match ops with
+  | [] => 0
+  | UBadSet _ :: _ => 2
+  | UInsertTree _ t :: rest => if 255 <? max_fanout t then 1 else static_code cf rest
+  | UDerefTree _ :: rest => if m_append_only cf then 2 else static_code cf rest
+  | _ :: rest => static_code cf rest
+  end.
+Definition static_ref_code (cf : mcfg) (ops : list uop) : N :=
+  if existsb (fun o => match o with URefTree _ => negb (m_append_only cf) && negb (m_rc cf) | _ => false end) ops then 1 else 0.
+
 Definition mcommit_tx (cf : mcfg) (s : mstate) (ops : list uop) : mstate * N :=
+  if negb (static_code cf ops =? 0) then (s, static_code cf ops) else
+  if negb (static_ref_code cf ops =? 0) then (s, static_ref_code cf ops) else
   let '(s1, p, code) := prepare cf ops s {| p_roots := []; p_nodes := []; p_kv := []; p_check := false; p_used := [] |} in
   if negb (code =? 0) then (s1, code)
   else if existsb (fun it => match it with MRootRef _ => negb (m_rc cf) | _ => false end) (p_roots p) then (s1, 1)
